@@ -25,9 +25,15 @@ J_MAX = 60
 ALGOS = ["PaVeBa", "PaVeBaGP-IH", "PaVeBaGP-DE", "PaVeBaPartialGP-rect", "PaVeBaPartialGP-ell", "VOGP", "EpsilonPAL", "Auer"]
 
 
-def _scale_fn(algo, delta, K, m, noise_var):
+def _scale_fn(algo, delta, K, m, noise_var, batch=1):
     """Returns f(t) -> scale handed to design_space.update by the algorithm in its t-th confidence round (t = 1, 2, ...)."""
-    ds = SimpleNamespace(cardinality=K)
+    import types
+
+    ds = types.SimpleNamespace(cardinality=K)
+
+    def SimpleNamespace(**kw):  # noqa: N802 - every namespace also carries the configured batch size
+        return types.SimpleNamespace(batch_size=batch, **kw)
+
     if algo == "PaVeBa":
         from vopy.algorithms.paveba import PaVeBa
 
@@ -56,7 +62,7 @@ def _scale_fn(algo, delta, K, m, noise_var):
     raise ValueError(algo)
 
 
-def _instance_scale_fn(algo, delta, K, m, noise_var):
+def _instance_scale_fn(algo, delta, K, m, noise_var, batch=1):
     """Same schedule read from a REAL algorithm instance (public constructor, synthetic dataset of K designs)."""
     from vverif.harness import algos as ha
     from vverif.harness import data as hdata
@@ -66,6 +72,8 @@ def _instance_scale_fn(algo, delta, K, m, noise_var):
     spec = {"algo": name, "cone": {"kind": "comp", "m": m}, "eps": 0.1, "delta": delta, "noise_var": noise_var, "contraction": 1,
             "X": hdata.grid_inputs(K, 1).tolist(), "Y": [[0.0] * m for _ in range(K)], "seed": 0, "source": "stub",
             "stub": {"A": [[0.0] * (m * m)], "diag": [[1.0] * m], "cov_scale": 1.0, "rho": 0.9, "vtab": [[0.0] * m]}}
+    if name in ("PaVeBaGP", "PaVeBaPartialGP", "VOGP", "EpsilonPAL"):
+        spec["batch"] = batch
     if algo == "PaVeBaGP-DE":
         spec["conf"] = "DE"
     if algo == "PaVeBaPartialGP-ell":
@@ -86,8 +94,9 @@ def check_crosscheck(case):
     """The namespace route used for large K agrees with a real instance (small K), for several rounds."""
     algo, delta, K, m = case["algo"], case["delta"], min(case["K"], 40), case["m"]
     noise_var = case["noise_var"] if algo != "Auer" else min(1.0, case["noise_var"])
-    f1 = _scale_fn(algo, delta, K, m, noise_var)
-    f2 = _instance_scale_fn(algo, delta, K, m, noise_var)
+    batch = case.get("batch", 1)
+    f1 = _scale_fn(algo, delta, K, m, noise_var, batch)
+    f2 = _instance_scale_fn(algo, delta, K, m, noise_var, batch)
     for t in (1, 2, 3, 7, 50, 1000, 2**20):
         a, b = np.asarray(f1(t), float), np.asarray(f2(t), float)
         if a.shape != b.shape or not np.allclose(a, b, rtol=1e-12, atol=0):
@@ -113,13 +122,16 @@ def check(case):
     pts = np.array([[0.5]])
     ds = FixedPointsDesignSpace(pts, m, confidence_type="hyperellipsoid" if ell else "hyperrectangle")
     stub = StubModel(pts, np.zeros((1, m)), Sigma[None])
-    f = _scale_fn(algo, delta, K, m, noise_var)
+    batch = case.get("batch", 1) if algo not in ("PaVeBa", "Auer") else 1
+    if batch > 1:
+        labels.append("batch>1")
+    f = _scale_fn(algo, delta, K, m, noise_var, batch)
     try:
         f(1)
     except AttributeError:
         # the schedule now reads an attribute the namespace does not carry: fall back to a real instance (K capped)
         K = min(K, 200)
-        f = _instance_scale_fn(algo, delta, K, m, noise_var)
+        f = _instance_scale_fn(algo, delta, K, m, noise_var, batch)
         labels.append("instance-route")
 
     def p_miss(t):
@@ -192,6 +204,7 @@ def st_case(draw, algo=None):
     K = draw(st.one_of(st.sampled_from([1, 1, 2, 3, 10, 100, 10**4, 10**6]), st.floats(0, 13.8).map(lambda x: int(math.exp(x)))))
     m = draw(st.integers(2, 6))
     return {"algo": algo, "delta": delta, "K": max(1, K), "m": m, "noise_var": draw(gen.st_logfloat(1e-3, 1e2)),
+            "batch": draw(st.sampled_from([1, 1, 2, 8, 32, 64])),
             "A": [draw(st.floats(-1, 1)) for _ in range(36)], "diag": [draw(gen.st_logfloat(1e-4, 1.0)) for _ in range(6)]}
 
 
